@@ -38,8 +38,18 @@ func c11Name(i int) string { return fmt.Sprintf("Batch/%d/case", i) }
 func c11TestCases(n int) []*conformancev1.TestCase {
 	var tcs []*conformancev1.TestCase
 	for i := 0; i < n; i++ {
+		req := &conformancev1.ClientCompatRequest{TestName: c11Name(i)}
+		// every fourth case is a raw-request case: one without headers of its
+		// own (legal), one with a header of its own - the runner adds the test
+		// name (and, for the reference server, its expectations) to those too
+		switch i % 4 {
+		case 1:
+			req.RawRequest = &conformancev1.RawHTTPRequest{Verb: "POST", Uri: "/raw"}
+		case 3:
+			req.RawRequest = &conformancev1.RawHTTPRequest{Verb: "POST", Uri: "/raw", Headers: []*conformancev1.Header{{Name: "x-own", Value: []string{"v"}}}}
+		}
 		tcs = append(tcs, &conformancev1.TestCase{
-			Request: &conformancev1.ClientCompatRequest{TestName: c11Name(i)},
+			Request: req,
 			ExpectedResponse: &conformancev1.ClientResponseResult{
 				Payloads: []*conformancev1.ConformancePayload{{Data: []byte(fmt.Sprintf("data-%d", i))}},
 			},
@@ -571,6 +581,18 @@ func c11Body(tape *simrt.Tape, o simwork.Opts, res *simwork.Result) {
 		}
 		if !found {
 			viol("c11/test-name-header", "request %q lacks its x-test-case-name header", req.TestName)
+		}
+		if req.RawRequest != nil {
+			res.Probes["raw-request-handed-to-client"]++
+			n := 0
+			for _, h := range req.RawRequest.Headers {
+				if strings.EqualFold(h.Name, "x-test-case-name") && len(h.Value) == 1 && h.Value[0] == req.TestName {
+					n++
+				}
+			}
+			if n != 1 {
+				viol("c11/test-name-header", "raw request of %q (%d header(s) of its own or added) carries its x-test-case-name header %d times, not once", req.TestName, len(req.RawRequest.Headers), n)
+			}
 		}
 		if cs.ClientCerts != (req.ClientTlsCreds != nil) {
 			viol("c11/client-creds", "request %q: client creds present=%v, batch uses client certs=%v", req.TestName, req.ClientTlsCreds != nil, cs.ClientCerts)
